@@ -121,6 +121,13 @@ func c10() {
 			strace = true
 			run.Count("children_whose_every_seccomp_call_is_answered_with_ENOSYS", 1)
 		}
+		sideLoad := i%12 == 2 && !divergent && !transient && !refusing && flags&1 != 0 && !cc.NoProc
+		if sideLoad {
+			// a schedule: while the judged load is between its steps, another thread loads a different policy with other
+			// flags (and is gone again before the judged load goes on)
+			tc.SideLoadAtHook = true
+			run.Count("children_with_a_side_load_between_the_steps_of_the_judged_load", 1)
+		}
 		res, err := vlib.RunChild(bin, "tsync", cc, strace, 90*time.Second)
 		desc := fmt.Sprintf("case %d: %d threads %v spawners=%d gomaxprocs=%d flags=%#x loader_spin=%d %s", i, nthreads, tc.Threads[:min(4, nthreads)], tc.Spawners, tc.GoMaxProcs, flags, tc.LoaderSpin, variant)
 		if err != nil || res.TimedOut || res.Line("done") == nil {
@@ -153,6 +160,10 @@ func c10() {
 			}
 			if refusing {
 				run.Count("missing_seccomp_call_surfaced_as_error", 1) // no nil result: nothing to judge
+				return
+			}
+			if sideLoad {
+				run.Count("loads_that_failed_next_to_a_side_load", 1) // e.g. the runtime cloned a thread from the side thread: no nil result, nothing to judge
 				return
 			}
 			run.Inconclusive(fmt.Sprintf("load failed in tsync child (%s): %v", desc, l["err"]))
